@@ -247,6 +247,13 @@ def gen_cases(tier, seed):
         for action in ("rst", "server-close"):
             cases.append({"kind": "enum", "action": action, "stride": 2 if tier == "quick" else 1, "phase": seed % 2,
                           "plan": {"scripts": [name], "backend_delay": [0.005], "seed": seed}})
+    # ... and inside the second, third back-end call of the worker (open -> seek -> read/write -> close): the reset travels
+    # longer than one call takes
+    for name in ("retr_rest", "stor_rest", "appe"):
+        for lat in ((0.003, 0.005, 0.007) if tier == "quick" else (0.003, 0.005, 0.007, 0.009, 0.011)):
+            for action in ("rst", "server-close"):
+                cases.append({"kind": "enum", "action": action,
+                              "plan": {"scripts": [name], "backend_delay": [0.002], "latency": lat, "seed": seed}})
     # slow reply writer (server-wide write limit): replies are still queued behind the throttle when the session ends
     for name in (["login_quit", "walk"] if tier == "quick" else ["login_quit", "walk", "stor_pasv", "mkd_rmd", "rename", "pipelined"]):
         for action in ("rst", "fin", "server-close"):
